@@ -3,9 +3,9 @@ package main
 // Runs the REAL code (pkg.* and the verif hooks) on protocol cases, one JSON line in, one out.
 
 import (
-	"crypto/sha256"
 	"bufio"
 	"bytes"
+	"crypto/sha256"
 	"encoding/base64"
 	"encoding/json"
 	"fmt"
@@ -59,9 +59,18 @@ func validateAt(profile, data string, rc config.ReportConfiguration, clock confi
 	select {
 	case o := <-ch:
 		return o
-	case <-time.After(150 * time.Second):
+	case <-time.After(callDeadline(150)):
 		return outcome{Kind: "timeout"}
 	}
+}
+
+// callDeadline: how long a call may take before it counts as not returning; the quick tier's inputs are small (a call takes well
+// under a second), so it waits a third of the thorough tier's time
+func callDeadline(seconds int) time.Duration {
+	if os.Getenv("ACVH_TIER") == "quick" {
+		seconds /= 3
+	}
+	return time.Duration(seconds) * time.Second
 }
 
 // dbg: the debug flag of the entry points is an input like any other; every case gets a fixed, content-derived value
@@ -83,6 +92,8 @@ type caseHead struct {
 	Fetch   bool   `json:"fetch"`
 	// report configuration of the call, when the case fixes one (c06): schema IRIs and whether the date is included
 	RC *caseRC `json:"rc,omitempty"`
+	// context documents the data refers to as "__CTX__/<file name>" (oneshot writes them into a directory of its own)
+	CtxFiles map[string]string `json:"ctxFiles,omitempty"`
 }
 
 type caseRC struct {
@@ -220,7 +231,7 @@ func implPairs(h caseHead) map[string]any {
 
 var implOps = map[string]func(h caseHead, raw []byte) map[string]any{
 	"c01":    func(h caseHead, raw []byte) map[string]any { return implPairs(h) },
-	"c01y": func(h caseHead, raw []byte) map[string]any { return implPairs(h) }, // same real run; the model side reads the YAML tree instead of the abstract case
+	"c01y":   func(h caseHead, raw []byte) map[string]any { return implPairs(h) }, // same real run; the model side reads the YAML tree instead of the abstract case
 	"c02":    func(h caseHead, raw []byte) map[string]any { return implC02(h) },
 	"pipe":   implPipe,
 	"fuzz":   implFuzz,
@@ -247,6 +258,7 @@ func runImpl(in io.Reader, out io.Writer) {
 	// attached to the case during which it appeared (a library has no business writing to its host's standard streams)
 	noise := captureStd()
 	nLines := 0
+	var history []string
 	for sc.Scan() {
 		line := sc.Bytes()
 		if len(line) == 0 {
@@ -254,25 +266,48 @@ func runImpl(in io.Reader, out io.Writer) {
 		}
 		// the process has a history: now and then it compiles an unrelated profile that binds built-in aliases (and `ex`) to
 		// namespaces of its own; no answer below may depend on that
+		stuck := ""
 		if nLines%5 == 2 {
-			interfere(nLines / 5)
+			if !interfere(nLines / 5) {
+				stuck = "an unrelated pkg.CompileProfile call this process made before the case did not return"
+			}
 		}
 		nLines++
 		var h caseHead
 		var res map[string]any
 		if err := json.Unmarshal(line, &h); err != nil {
 			res = map[string]any{"outcome": "badcase", "err": err.Error()}
+		} else if stuck != "" {
+			res = map[string]any{"outcome": "timeout", "err": stuck}
 		} else if f, ok := implOps[h.Op]; ok {
-			func() {
+			// every op has deadlines of its own around the library calls it makes; this one is the last resort for a call made
+			// outside them (a blocked call never comes back, so the goroutine is abandoned and the process replaced)
+			done := make(chan map[string]any, 1)
+			go func() {
+				var r map[string]any
 				defer func() {
-					if r := recover(); r != nil {
-						res = map[string]any{"outcome": "panic", "err": fmt.Sprint(r)}
+					if p := recover(); p != nil {
+						r = map[string]any{"outcome": "panic", "err": fmt.Sprint(p)}
 					}
+					done <- r
 				}()
-				res = f(h, append([]byte(nil), line...))
+				r = f(h, append([]byte(nil), line...))
 			}()
+			select {
+			case res = <-done:
+			case <-time.After(callDeadline(1500)):
+				res = map[string]any{"outcome": "timeout", "err": "the case did not come back (a library call outside the op's own deadlines blocked)"}
+			}
 		} else {
 			res = map[string]any{"outcome": "badop"}
+		}
+		if o, _ := res["outcome"].(string); o == "timeout" {
+			// what this process had handled before (a call that blocks may do so because of an earlier one)
+			res["processHistory"] = append([]string{}, history...)
+		}
+		history = append(history, fmt.Sprintf("%s#%d", h.Op, h.Id))
+		if len(history) > 400 {
+			history = history[len(history)-400:]
 		}
 		res["id"] = h.Id
 		if so, se := noise(); so != "" || se != "" {
@@ -282,6 +317,12 @@ func runImpl(in io.Reader, out io.Writer) {
 		w.Write(b)
 		w.WriteByte('\n')
 		w.Flush()
+		if o, _ := res["outcome"].(string); o == "timeout" {
+			// a call that did not return may hold locks or burn CPU for ever: the remaining cases go to a fresh process
+			w.WriteString("{\"restart\":true}\n")
+			w.Flush()
+			os.Exit(0)
+		}
 	}
 }
 
@@ -334,9 +375,18 @@ var interferers = []string{
 	"profile: other tenant 2\nprefixes:\n  shacl: http://example.org/s#\n  doc: http://example.org/d#\n  apiExt: http://example.org/x#\n  xsd: http://example.org/xsd#\n  zz: http://ex.org/v#\nwarning:\n  - o\nvalidations:\n  o:\n    targetClass: doc.Unit\n    message: o\n    propertyConstraints:\n      shacl.name:\n        in: [a]\n      zz.p1:\n        datatype: xsd.string\n",
 }
 
-func interfere(k int) {
-	defer func() { recover() }()
-	pkg.CompileProfile(interferers[k%len(interferers)], false, nil)
+func interfere(k int) (returned bool) {
+	done := make(chan bool, 1)
+	go func() {
+		defer func() { recover(); done <- true }()
+		pkg.CompileProfile(interferers[k%len(interferers)], false, nil)
+	}()
+	select {
+	case <-done:
+		return true
+	case <-time.After(callDeadline(120)):
+		return false
+	}
 }
 
 // ---------------------------------------------------------------- pipeline runs with an event channel
@@ -355,6 +405,11 @@ func implPipe(h caseHead, raw []byte) map[string]any {
 	var compiled *regoPrepared
 	if ph.Entry == 1 || ph.Entry == 3 {
 		c, err := compileQuiet(h.Profile)
+		if err == errCompileBlocked {
+			res["outcome"] = "timeout"
+			res["err"] = err.Error()
+			return res
+		}
 		if err != nil {
 			res["outcome"] = "setup-failed"
 			res["err"] = err.Error()
@@ -470,7 +525,7 @@ func implFuzz(h caseHead, raw []byte) map[string]any {
 	case r := <-rc:
 		res["outcome"] = r.kind
 		res["err"] = r.err
-	case <-time.After(240 * time.Second):
+	case <-time.After(callDeadline(240)):
 		res["outcome"] = "timeout"
 	}
 	return res
@@ -478,9 +533,10 @@ func implFuzz(h caseHead, raw []byte) map[string]any {
 
 // hist: a history of documents through one compiled profile vs a fresh validation of each document
 type histHead struct {
-	Docs      []string  `json:"docs"`
-	Interfere []string  `json:"interfere"`
-	RCs       []*caseRC `json:"rcs"`
+	Docs      []string            `json:"docs"`
+	Interfere []string            `json:"interfere"`
+	RCs       []*caseRC           `json:"rcs"`
+	Ctx       []map[string]string `json:"ctx"`
 }
 
 func implHist(h caseHead, raw []byte) map[string]any {
@@ -488,6 +544,11 @@ func implHist(h caseHead, raw []byte) map[string]any {
 	json.Unmarshal(raw, &hh)
 	res := map[string]any{}
 	compiled, err := compileQuiet(h.Profile)
+	if err == errCompileBlocked {
+		res["outcome"] = "timeout"
+		res["err"] = err.Error()
+		return res
+	}
 	if err != nil {
 		res["outcome"] = "compile-error"
 		res["err"] = err.Error()
@@ -508,8 +569,25 @@ func implHist(h caseHead, raw []byte) map[string]any {
 	var positions []map[string]any
 	allSame := true
 	firstSeen := map[string]string{}
+	ctxDir := ""
+	if len(hh.Ctx) > 0 {
+		if dir, err := os.MkdirTemp("", "acvhist"); err == nil {
+			ctxDir = dir
+			defer os.RemoveAll(dir)
+		}
+	}
+	ctxState := map[string]string{}
 	for k, d := range hh.Docs {
 		doc := d
+		if ctxDir != "" {
+			if k < len(hh.Ctx) {
+				for f, text := range hh.Ctx[k] {
+					os.WriteFile(ctxDir+"/"+f, []byte(text), 0644)
+					ctxState[f] = text
+				}
+			}
+			doc = strings.ReplaceAll(doc, "__CTX__", ctxDir)
+		}
 		if len(hh.Interfere) > 0 {
 			other := hh.Interfere[k%len(hh.Interfere)]
 			one(func() (string, error) { return pkg.Validate(other, doc, false, nil) })
@@ -530,7 +608,7 @@ func implHist(h caseHead, raw []byte) map[string]any {
 		}
 		// the same document again, later in the history, must give the same report as the first time
 		repeatSame := true
-		rk := fmt.Sprintf("%v\x00%s", rc, doc)
+		rk := fmt.Sprintf("%v\x00%s\x00%v", rc, doc, ctxState) // (fmt prints maps in key order)
 		if prev, ok := firstSeen[rk]; ok {
 			repeatSame = prev == k1+"\n"+r1
 		} else {
@@ -639,7 +717,8 @@ func implC03(h caseHead, raw []byte) map[string]any {
 
 // c16: the real path parser on one string
 type c16Head struct {
-	Text string `json:"text"`
+	Text  string `json:"text"`
+	Canon string `json:"canon"`
 }
 
 func implC16(h caseHead, raw []byte) (res map[string]any) {
@@ -666,6 +745,13 @@ func implC16(h caseHead, raw []byte) (res map[string]any) {
 		}
 		res["asKey"] = site("      " + yq(ch.Text) + ":\n        minCount: 1\n")
 		res["asComparison"] = site("      ex.p0:\n        lessThanProperty: " + yq(ch.Text) + "\n")
+	}
+	if ch.Canon != "" {
+		if dc, err := verifhook.ParsePath(ch.Canon); err != nil {
+			res["canonResult"] = "REJECT"
+		} else {
+			res["canonResult"] = dc
+		}
 	}
 	d, err := verifhook.ParsePath(ch.Text)
 	if err != nil {
@@ -918,7 +1004,7 @@ func implC07(h caseHead, raw []byte) (res map[string]any) {
 		} else {
 			res["outcome"] = "ok"
 		}
-	case <-time.After(120 * time.Second):
+	case <-time.After(callDeadline(120)):
 		res["outcome"] = "timeout"
 	}
 	return res
